@@ -23,6 +23,13 @@ import StraxModel.Model.Mailbox
   hands it out message by message WITHOUT touching the mailbox again — a stage therefore holds up to a whole
   mailbox-full of messages besides the mailbox itself (this is why the bound is 2·cap per mailbox and not cap + 1).
 
+  WORKER POOL (`pool`, eager only in the real processor): every plugin stage submits its computation to an executor and
+  sends the FUTURE (`Msg.fut id v`); a reader that takes a future out of its batch waits for its result before it hands
+  it on (`msg.result()` in `Mailbox._read`).  A thread that holds a message whose result is not there yet sits in
+  `Pc.send m` and cannot move; for the consumer this is the state "taken out of the mailbox, not yet handed over" — the
+  reason why one more message than `B` can be under way with a pool.  Futures are resolved by `Tid.resolve id` at any
+  time (over-approximation of the executor's workers).
+
   No failures here (no kill, no raising source): that is C06.  The error branches of the critical sections are
   kept (`Pc.dead`), Lemmas/Backpressure.lean proves they are unreachable.
 -/
@@ -33,7 +40,7 @@ open Strax Strax.Mailbox
 inductive Pc where
   | gate                 -- lazy only: at the fetch gate of its output mailbox (`with self._lock: if not self._can_fetch(): wait`)
   | read                 -- inside `next(iterable)`: source: about to compute; stage / main: at the lock of its input mailbox
-  | send (m : Msg)       -- holds `m`, at `send` on its output mailbox
+  | send (m : Msg)       -- holds `m`: waits for its result if it is an unresolved future, then sends on / hands over
   | close                -- input exhausted: `close()` = `send(StopIteration)`, then `closed = True`
   | done
   | dead (e : Err)
@@ -56,6 +63,8 @@ structure Net where
   mbs : List MB
   nodes : List Node      -- `mbs.length + 1` threads; node j sends to mailbox j and reads mailbox j-1 as subscriber 0
   sides : List Side
+  pool : Bool            -- worker pool: stages send futures
+  futDone : List Nat     -- futures whose result is set
   remaining : Nat        -- chunks the source will still produce
   emitted : Nat          -- ghost: advances of the source (`next()` calls that returned; the last one finds it exhausted)
   pulled : Nat           -- ghost: messages the consumer has been handed (the last one is the end marker)
@@ -64,6 +73,7 @@ deriving Repr, DecidableEq
 inductive Tid where
   | node (j : Nat)
   | side (i : Nat)
+  | resolve (id : Nat)   -- a worker of the pool sets the result of future `id`
 deriving Repr, DecidableEq
 
 /-- take the next message of the batch: a stage goes on to send it (or to close), `read` if the batch is used up -/
@@ -86,12 +96,28 @@ def afterGate (j : Nat) (nd : Node) : Node :=
 def Net.setNode (s : Net) (j : Nat) (nd : Node) : Net := { s with nodes := s.nodes.set j nd }
 def Net.setMb (s : Net) (j : Nat) (mb : MB) : Net := { s with mbs := s.mbs.set j mb }
 
-/-- the consumer takes one message out of its batch -/
+/-- a future whose result is not there yet -/
+def unresolved (done : List Nat) : Msg → Bool
+  | .fut id _ => !done.contains id
+  | _ => false
+
+def valueOf : Msg → Nat
+  | .plain v => v
+  | .fut _ v => v
+  | .stop => 0
+
+/-- what stage `j` sends for the input message `m`: with a worker pool the future of its own computation -/
+def outMsg (pool : Bool) (nThreads j k : Nat) (m : Msg) : Msg :=
+  if pool && decide (j ≠ 0) then .fut (j + nThreads * k) (valueOf m) else m
+
+/-- the consumer takes one message out of its batch; a future without result is held until it is resolved -/
 def Net.pull (s : Net) (j : Nat) (batch : List Msg) : Option Net :=
   match batch with
   | [] => none
   | .stop :: r => some { (s.setNode j { pc := .done, batch := r }) with pulled := s.pulled + 1 }
-  | _ :: r => some { (s.setNode j { pc := .read, batch := r }) with pulled := s.pulled + 1 }
+  | m :: r =>
+    if unresolved s.futDone m then some (s.setNode j { pc := .send m, batch := r })
+    else some { (s.setNode j { pc := .read, batch := r }) with pulled := s.pulled + 1 }
 
 /-- one step of pipeline thread `j` -/
 def stepNode (s : Net) (j : Nat) : Option Net :=
@@ -130,10 +156,15 @@ def stepNode (s : Net) (j : Nat) : Option Net :=
               let s1 := s.setMb (j - 1) mb
               if j = n then s1.pull j msgs else some (s1.setNode j ({ nd with batch := msgs } : Node).advance)
     | .send m =>
+      if unresolved s.futDone m then none          -- `Future.result()`: blocked until a worker has set the result
+      else if j = n then
+        -- the consumer is handed the result
+        some { (s.setNode j { nd with pc := .read }) with pulled := s.pulled + 1 }
+      else
       match s.mbs[j]? with
       | none => none
       | some out =>
-        match out.sendStep none m with
+        match out.sendStep none (outMsg s.pool (n + 1) j out.nSent m) with
         | none => none
         | some (.sent _, mb) => some ((s.setMb j mb).setNode j (afterPush s.lazy j nd))
         | some (.dropped, mb) => some ((s.setMb j mb).setNode j (afterPush s.lazy j nd))
@@ -168,9 +199,14 @@ def stepSide (s : Net) (i : Nat) : Option Net :=
       | some (.took msgs, mb) =>
         some { (s.setMb sd.mb mb) with sides := s.sides.set i { sd with done := msgs.contains .stop } }
 
+/-- a worker sets the result of a future -/
+def stepResolve (s : Net) (id : Nat) : Option Net :=
+  if s.pool && !s.futDone.contains id then some { s with futDone := id :: s.futDone } else none
+
 def step (s : Net) : Tid → Option Net
   | .node j => stepNode s j
   | .side i => stepSide s i
+  | .resolve id => stepResolve s id
 
 /-! ### wiring -/
 
@@ -180,6 +216,7 @@ structure Wiring where
   lazy : Bool
   caps : List Nat
   savers : List Nat
+  pool : Bool := false
 deriving Repr, DecidableEq
 
 def Wiring.saversAt (w : Wiring) (j : Nat) : Nat := (w.savers[j]?).getD 0
@@ -207,6 +244,7 @@ def wire (w : Wiring) (n : Nat) : Net :=
     nodes := (List.range (m + 1)).map fun j =>
       { pc := if j = m then .read else if w.lazy then .gate else .read, batch := [] },
     sides := mkSides (w.savers.take m) 0,
+    pool := w.pool, futDone := [],
     remaining := n, emitted := 0, pulled := 0 }
 
 inductive Reachable (w : Wiring) (n : Nat) : Net → Prop
@@ -232,8 +270,12 @@ def run? (s : Net) : List Tid → Option Net
     | some s' => run? s' ts
     | none => none
 
+/-- the threads that may be enabled: pipeline threads, savers, and a worker for every future some thread waits for -/
 def Net.threads (s : Net) : List Tid :=
-  (List.range s.nodes.length).map .node ++ (List.range s.sides.length).map .side
+  (List.range s.nodes.length).map .node ++ (List.range s.sides.length).map .side ++
+    s.nodes.filterMap fun nd => match nd.pc with
+      | .send (.fut id _) => some (.resolve id)
+      | _ => none
 
 def Net.enabled (s : Net) : List Tid := s.threads.filter fun t => (step s t).isSome
 
@@ -245,6 +287,9 @@ def Net.quiescent (s : Net) : Bool := s.enabled.all fun t => t == s.main
 /-- the bound: two mailbox-fulls per mailbox of the chain — `cap` messages buffered in the mailbox, `cap` more taken
 out of it in one batch by its reader (the message being computed / waiting to be sent on is one of them) -/
 def B (w : Wiring) : Nat := 2 * w.caps.sum
+
+/-- with a worker pool: one more — the future the consumer's reader has taken and is waiting for -/
+def Bpool (w : Wiring) : Nat := B w + 1
 
 /-- lazy mode with only the next stage driving: one message is under way at any time -/
 def Blazy : Nat := 1
@@ -275,6 +320,7 @@ def Policy.prio (p : Policy) (s : Net) : Tid → Nat
       | .up => 2 * sd.mb + 1
       | .down => 2 * (s.mbs.length - sd.mb) + 1
       | .lag => 2 * s.mbs.length + 1 + sd.mb
+  | .resolve _ => 999998
 
 def pickMin (f : Tid → Nat) : List Tid → Option Tid
   | [] => none
